@@ -223,6 +223,7 @@ def check_streams(ctx, streams, label='solver-cache'):
         lines.append(S.model_line(st, und))
         keep.append((st, obs, words, und))
     outs = ctx.driver.ask(lines)
+    fails = []
     for (st, obs, words, und), out in zip(keep, outs):
         model = out.split(' ')[:len(words)]
         ctx.traces += 1
@@ -253,7 +254,10 @@ def check_streams(ctx, streams, label='solver-cache'):
         if words != model:
             ctx.disagree(label, case, ' '.join(words)[:1500], ' '.join(model)[:1500])
         for key, what, i in S.oracle(st, obs):
-            ctx.oracle_fail(key, what, dict(case, failing_op=i))
+            fails.append((0 if 'interpreter dies' in what else 1, key, what, dict(case, failing_op=i)))
+    fails.sort(key=lambda f: f[0])      # the replay stored per finding is a crashing history when there is one
+    for _, key, what, case in fails:
+        ctx.oracle_fail(key, what, case)
 
 
 # ------------------------------------------------------------------ csc conversion (tested)
@@ -353,6 +357,7 @@ def run_routine(cfg):
                'pf_xy': [C.f2h(v) for v in np.concatenate([ss.dae.x, ss.dae.y])]}
         if cfg.get('tf', 0) > 0 and ok:
             tds = ss.TDS
+            tds.config.no_tqdm = 1
             tlog = []
             rec = Rec(tds.solver.worker, tlog)
             tds.solver.worker = rec
@@ -409,17 +414,16 @@ def routine_cfgs(ctx):
         for lib in LIBS:
             cfgs += [c for c in rest if c['lib'] == lib][:5]
     cfgs = [dict(c) for c in cfgs]
-    # time-domain runs on a subset
-    tds_cases = [c for c in cfgs if c['case'] != '5bus/pjm5bus.xlsx' and c['method'] == 'NR']
-    rng.shuffle(tds_cases)
-    seen = set()
-    for c in tds_cases:
-        key = (c['case'], c['lib'], c['linsolve'])
-        if key in seen:
-            continue
-        seen.add(key)
-        c['tf'] = 1.3 if c['case'].startswith('ieee14') else 2.2
-        c['honest'] = rng.choice([0, 0, 1])
+    # time-domain runs: one case, every library (+ every linsolve / honest variant in the thorough tier)
+    tcases = ['kundur/kundur_full.xlsx', 'ieee14/ieee14_full.xlsx']
+    for case in (tcases if ctx.thorough else [rng.choice(tcases)]):
+        tf = 1.3 if case.startswith('ieee14') else 2.2
+        variants = [(lib, lin, h) for lib in LIBS for lin in (0, 1) for h in (0, 1)]
+        if not ctx.thorough:
+            variants = [(lib, rng.choice([0, 1]), 0) for lib in LIBS] + [(rng.choice(LIBS), 0, 1)]
+        for lib, lin, h in variants:
+            cfgs.append({'case': case, 'lib': lib, 'linsolve': lin, 'ipadd': rng.choice([0, 1]), 'method': 'NR', 'nf': 4,
+                         'tf': tf, 'honest': h})
     return cfgs
 
 
@@ -560,12 +564,17 @@ def run(ctx):
     andes.config_logger(stream_level=50)
     streams = corpus_streams()
     ctx.count('corpus', len(streams))
-    n = ctx.n(1500, 15000)
+    import time
+    n = ctx.n(1200, 12000)
     streams += [gen_stream(ctx.rng) for _ in range(n)]
+    t0 = time.time()
     check_streams(ctx, streams)
+    t1 = time.time()
     check_csc(ctx, streams[:ctx.n(200, 2000)])
     res = check_routines(ctx)
+    t2 = time.time()
     check_repetition(ctx, res)
+    ctx.cov['phase_s'] = {'solver-cache': round(t1 - t0, 1), 'routines': round(t2 - t1, 1), 'repetition': round(time.time() - t2, 1)}
     src = C.REPO + '/andes/linsolvers/'
     ctx.cov['source_hashes'] = {
         'SuiteSparseSolver.solve': C.hash_source(src + 'suitesparse.py', 'SuiteSparseSolver.solve'),
